@@ -10,8 +10,10 @@ Three parts (HOWTO.md):
     the binary64 inputs, a ray cast in a generic (non-horizontal) direction,
     only for points farther than 1e-6 x polygon size from every edge.
 """
+import copy
 import ctypes
 import math
+import pickle
 from fractions import Fraction as Fr
 
 import numpy as np
@@ -322,16 +324,244 @@ def run_kernel(case):
     return [int(v) for v in ins]
 
 
+def query_grid(g, poly, atol):
+    """cells_inside_polygon of an existing Grid object -> (rows, table), rows None for ValueError"""
+    try:
+        df = g.cells_inside_polygon(poly, atol=atol)
+    except ValueError:
+        return None, None
+    return [[float(x), float(y), int(c)] for x, y, c in zip(df["x"], df["y"], df["cell"])], df
+
+
 def run_cells(case):
     from hydrodiy.gis.grid import Grid
     g = Grid("g", case["ncols"], case["nrows"], cellsize=case["csz"],
              xllcorner=case["xll"], yllcorner=case["yll"])
     poly = np.array(case["poly"], dtype=np.float64).reshape(-1, 2)
-    try:
-        df = g.cells_inside_polygon(poly, atol=case["atol"])
-    except ValueError:
+    return query_grid(g, poly, case["atol"])[0]
+
+
+# ----------------------------------------------------------------------------
+# objects with a history: the property quantifies over polygons and points / grid cells,
+# whatever was done before with the objects that carry them
+
+GEOM_KEYS = ("nrows", "ncols", "xll", "yll", "csz")
+COPY_HOW = ["clone", "clone", "clone_dtype", "deepcopy", "copy", "pickle", "apply", "dict"]
+TOUCH_WHAT = ["fill", "data", "setitem", "axes", "cell2coord", "coord2cell", "neighbours", "str",
+              "name", "nodata", "dtype"]
+
+
+class GridLife:
+    """Grid objects derived from one another, taken through a recorded sequence of steps
+    (construction, queries, assignment of the public geometry attributes, copies, clipping,
+    calls of other methods, edits of returned tables).  `geom[k]` is the geometry the CALLER
+    gave object k (constructor arguments, later assignments); a query returns the rows
+    reported for object k, to be judged against that geometry."""
+
+    def __init__(self):
+        self.objs, self.geom, self.tables = [], [], []
+        self.parr = None          # the caller's polygon array, re-used in place when the shape allows
+        self.steps = []
+
+    def _push(self, obj, geom):
+        self.objs.append(obj)
+        self.geom.append(geom)
+        self.tables.append(None)
+        return len(self.objs) - 1
+
+    def case(self, step):
+        c = dict(self.geom[step["obj"]])
+        c["poly"] = [tuple(p) for p in step["poly"]]
+        c["atol"] = step["atol"]
+        return c
+
+    def do(self, step):
+        """one step; -> rows (or None) for a query, the index of the new object for new /
+        copy / clip (None when the library refused), else None"""
+        from hydrodiy.gis.grid import Grid
+        self.steps.append(step)
+        op = step["op"]
+        if op == "new":
+            g = step["geom"]
+            kw = dict(name="g", ncols=g["ncols"], nrows=g["nrows"], cellsize=g["csz"],
+                      xllcorner=g["xll"], yllcorner=g["yll"])
+            obj = Grid(**kw) if step["how"] == "init" else Grid.from_dict(kw)
+            return self._push(obj, {k: g[k] for k in GEOM_KEYS})
+        k = step["obj"]
+        g = self.objs[k]
+        if op == "query":
+            poly = np.array(step["poly"], dtype=np.float64).reshape(-1, 2)
+            if step.get("inplace") and self.parr is not None and self.parr.shape == poly.shape:
+                self.parr[...] = poly          # same ndarray object, new content
+            else:
+                self.parr = poly
+            rows, self.tables[k] = query_grid(g, self.parr, step["atol"])
+            return rows
+        if op == "set":
+            for attr, key in (("xllcorner", "xll"), ("yllcorner", "yll"), ("cellsize", "csz")):
+                if key in step:
+                    v = float(step[key])
+                    setattr(g, attr, np.float64(v) if step.get("np") else v)
+                    self.geom[k][key] = v
+            return None
+        try:
+            if op == "copy":
+                how = step["how"]
+                if how == "clone":
+                    new = g.clone()
+                elif how == "clone_dtype":
+                    new = g.clone(np.int32)
+                elif how == "deepcopy":
+                    new = copy.deepcopy(g)
+                elif how == "copy":
+                    new = copy.copy(g)
+                elif how == "pickle":
+                    new = pickle.loads(pickle.dumps(g))
+                elif how == "apply":
+                    new = g.apply(np.negative)
+                else:
+                    new = Grid.from_dict(g.to_dict())
+                return self._push(new, dict(self.geom[k]))
+            if op == "clip":
+                new = g.clip(*step["box"])
+                return self._push(new, {"nrows": int(new.nrows), "ncols": int(new.ncols),
+                                        "xll": float(new.xllcorner), "yll": float(new.yllcorner),
+                                        "csz": float(new.cellsize)})
+            if op == "touch":      # nothing here concerns the geometry
+                what = step["what"]
+                nr, nc = int(g.nrows), int(g.ncols)
+                cells = np.arange(nr * nc)
+                if what == "fill":
+                    g.fill(3.0)
+                elif what == "data":
+                    g.data = np.arange(nr * nc, dtype=np.float64).reshape(nr, nc)
+                elif what == "setitem":
+                    g[0] = 5.0
+                elif what == "axes":
+                    _ = (g.xvalues, g.yvalues, g.xlim, g.ylim, g.shape)
+                elif what == "cell2coord":
+                    _ = (g.cell2coord(cells[::-1]), g.cell2coord(0))
+                elif what == "coord2cell":
+                    _ = g.coord2cell(g.cell2coord(cells))
+                elif what == "neighbours":
+                    _ = g.neighbours(0)
+                elif what == "str":
+                    _ = str(g)
+                elif what == "name":
+                    g.name, g.comment = "renamed", "renamed grid"
+                elif what == "nodata":
+                    g.nodata = -9999
+                else:
+                    g.dtype = np.float32
+            elif op == "scribble":  # the caller edits the table it was given
+                df = self.tables[k]
+                if df is not None and len(df):
+                    df["x"] += 1000.0
+                    df["cell"] = -1
+                    df.drop(df.index[:1], inplace=True)
+        except Exception as e:      # not the property's subject: recorded, the sequence goes on
+            step["raised"] = f"{type(e).__name__}: {e}"
         return None
-    return [[float(x), float(y), int(c)] for x, y, c in zip(df["x"], df["y"], df["cell"])]
+
+
+def random_geom(rng, ctx):
+    nrows = rng.choice([1, 2, 3, rng.randint(1, ctx.scale(12, 30))])
+    ncols = rng.choice([1, 2, 3, rng.randint(1, ctx.scale(12, 30))])
+    csz = rng.choice([1.0, 0.5, 0.25, 0.05, 30.0, 0.1, 1000.0])
+    xll = rng.choice([0.0, -3 * csz, 1e4 * csz, 123.456 * csz, rng.uniform(-10, 10) * csz])
+    yll = rng.choice([0.0, 2 * csz, -1e4 * csz, rng.uniform(-10, 10) * csz])
+    return {"nrows": nrows, "ncols": ncols, "xll": xll, "yll": yll, "csz": csz}
+
+
+def cell_polygon(rng, nrows, ncols):
+    """polygon in CELL units from the grid's lower-left corner (it can follow the grid when
+    the grid is moved or rescaled), over the grid and partly overhanging -> family, [(u, v)]"""
+    fam, upoly = base_polygon(rng)
+    fx = ncols / 6.0 * rng.choice([1.0, 0.7, 1.3])
+    fy = nrows / 6.0 * rng.choice([1.0, 0.7, 1.3])
+    if fam in ("lattice", "ortho", "dup", "collinear", "halfgrid") and rng.random() < 0.6:
+        fx = fy = rng.choice([0.5, 1.0, 2.0])     # vertices on cell corners / centres
+    ou = rng.choice([0, 0, -1, 0.5, rng.uniform(-1, 1)])
+    ov = rng.choice([0, 0, -1, 0.5, rng.uniform(-1, 1)])
+    return fam, [(ou + fx * x, ov + fy * y) for x, y in upoly]
+
+
+def place(geom, cpoly):
+    return [(geom["xll"] + geom["csz"] * u, geom["yll"] + geom["csz"] * v) for u, v in cpoly]
+
+
+def new_corner(rng, old, csz):
+    if rng.random() < 0.6:     # by whole cells / a fraction of a cell
+        return old + csz * rng.choice([1, -1, 2, 3, -4, 0.5, -0.5, 0.25, 7])
+    return rng.choice([0.0, -3 * csz, 1e4 * csz, 123.456 * csz, rng.uniform(-10, 10) * csz, 130.0])
+
+
+def new_cellsize(rng, old):
+    while True:
+        v = rng.choice([1.0, 0.5, 0.25, 0.05, 30.0, 0.1, 1000.0, old * 2, old / 2, old * 3, old / 4])
+        if v != old:
+            return v
+
+
+class ArrayLife:
+    """the caller's points / polygon / answer arrays kept over a sequence of calls of
+    points_inside_polygon: content rewritten in place, answer vector handed back"""
+
+    def __init__(self):
+        self.P = self.Q = self.I = None
+
+    def call(self, st):
+        """-> (returned ndarray or None, answers as a list or None)"""
+        from hydrodiy.gis import gutils
+        pts = np.array(st["pts"], dtype=np.float64).reshape(-1, 2)
+        poly = np.array(st["poly"], dtype=np.float64).reshape(-1, 2)
+        if st["same_pts_array"] and self.P is not None and self.P.shape == pts.shape:
+            self.P[...] = pts
+        else:
+            self.P = pts
+        if st["same_poly_array"] and self.Q is not None and self.Q.shape == poly.shape:
+            self.Q[...] = poly
+        else:
+            self.Q = poly
+        kw = {}
+        if st["inside"] == "own":   # holds the answers of the previous call (7s at first)
+            if self.I is None or len(self.I) != len(pts):
+                self.I = np.full(len(pts), 7, dtype=np.int32)
+            kw["inside"] = self.I
+        try:
+            out = gutils.points_inside_polygon(self.P, self.Q, **kw)
+        except ValueError:
+            return None, None
+        if st["inside"] == "own" and out is not self.I:
+            return out, ["not-in-place"]
+        return out, [int(v) for v in out]
+
+
+def polygon_edit(rng, poly, pts):
+    """another polygon with the SAME number of vertices (it fits the caller's array)
+    -> (kind, polygon, points move along?)"""
+    n = len(poly)
+    xs = [p[0] for p in poly]
+    ys = [p[1] for p in poly]
+    w, h = (max(xs) - min(xs)) or 1.0, (max(ys) - min(ys)) or 1.0
+    kind = rng.choice(["shift", "shift", "shuffle", "vertex", "rotate", "reverse", "mirror"])
+    if kind == "shift":       # polygon moved, points stay
+        dx, dy = rng.choice([0.25, 0.5, -0.5, 1.0, -2.0, 0.0]) * w, rng.choice([0.25, 0.5, -0.5, 1.0, 0.0]) * h
+        return kind, [(x + dx, y + dy) for x, y in poly], False
+    if kind == "shuffle":
+        q = list(poly)
+        rng.shuffle(q)
+        return kind, q, False
+    if kind == "vertex":
+        q = list(poly)
+        q[rng.randrange(n)] = (min(xs) + rng.choice([0, 0.25, 0.5, 1.0, 1.5]) * w,
+                               min(ys) + rng.choice([0, 0.25, 0.5, 1.0, -0.5]) * h)
+        return kind, q, False
+    if kind == "mirror":
+        c = min(xs) + max(xs)
+        return kind, [(c - x, y) for x, y in poly], False
+    q, _, _ = make_variant(rng, kind, poly, pts)
+    return kind, q, False
 
 
 # ----------------------------------------------------------------------------
@@ -469,6 +699,63 @@ def run(ctx):
                      f"point {pts[i]!r} (index {i}): answer {out[i]}, even-odd rule {want}; "
                      f"polygon {poly!r}")
         return exp
+
+    def judge_cells(idx, case, out):
+        """oracle on one cells_inside_polygon call (grid geometry = what the caller gave the
+        object); returns ({cell: expected 0/1} for the judged cells, set of returned cells)
+        or None when the call is outside the oracle's remit"""
+        nrows, ncols, xll, yll, csz = (case[k] for k in GEOM_KEYS)
+        poly = case["poly"]
+        if out is None:
+            if len(poly) >= 1:
+                fail(idx, "C15/cells_inside_polygon/raised", "ValueError for a non-empty polygon")
+            return None
+        if not in_quantifier(poly) or case["atol"] != ATOL:
+            # the property is about the tolerance 1e-8; with another atol argument the
+            # answer may legitimately depend on whether the argument is forwarded
+            stats["polygons_outside_quantifier"] += 1
+            return None
+        # exact centres: xll + csz*(col+1/2), yll + csz*(nrows-1-row+1/2) as dyadic rationals
+        cells = list(range(nrows * ncols))
+        cen = [(Fr(xll) + Fr(csz) * (Fr(k % ncols) + Fr(1, 2)),
+                Fr(yll) + Fr(csz) * (Fr(nrows - 1 - k // ncols) + Fr(1, 2))) for k in cells]
+        den = 1
+        for a, b in cen + [(Fr(x), Fr(y)) for x, y in poly]:
+            den = max(den, a.denominator, b.denominator)
+        V = [(int(Fr(x) * den), int(Fr(y) * den)) for x, y in poly]
+        xs = [v[0] for v in V]
+        ys = [v[1] for v in V]
+        size2 = (max(xs) - min(xs)) ** 2 + (max(ys) - min(ys)) ** 2
+        got = {c: (x, y) for x, y, c in out}
+        if len(got) != len(out):
+            fail(idx, "C15/cells_inside_polygon/duplicate-cell", "a cell is listed twice")
+        scale = max(abs(xll), abs(yll), csz * max(nrows, ncols))
+        exp = {}
+        for k in cells:
+            p = (int(cen[k][0] * den), int(cen[k][1] * den))
+            if k in got:
+                gx, gy = got[k]
+                if abs(Fr(gx) - cen[k][0]) > 1e-12 * scale or abs(Fr(gy) - cen[k][1]) > 1e-12 * scale:
+                    fail(idx, "C15/cells_inside_polygon/wrong-coordinates",
+                         f"cell {k}: reported ({gx!r},{gy!r}), centre ({float(cen[k][0])!r},{float(cen[k][1])!r}); "
+                         f"grid {nrows}x{ncols} xll={xll!r} yll={yll!r} cellsize={csz!r}")
+            if not is_far(V, p, size2):
+                stats["skipped_near_edge"] += 1
+                continue
+            want, _ = evenodd(V, p, rng)
+            exp[k] = want
+            stats["cells_judged"] += 1
+            where = (f"(centre {float(cen[k][0])!r},{float(cen[k][1])!r}) of the grid {nrows}x{ncols} "
+                     f"xll={xll!r} yll={yll!r} cellsize={csz!r}")
+            if want == 1 and k not in got:
+                fail(idx, "C15/cells_inside_polygon/missing-cell",
+                     f"cell {k} {where} is inside but not returned; polygon {poly!r}")
+            if want == 0 and k in got:
+                fail(idx, "C15/cells_inside_polygon/extra-cell",
+                     f"cell {k} {where} is outside but returned; polygon {poly!r}")
+        if any(c < 0 or c >= nrows * ncols for c in got):
+            fail(idx, "C15/cells_inside_polygon/extra-cell", "a cell number outside the grid is returned")
+        return exp, set(got)
 
     # ---- replayed / corpus cases first
     first = []
@@ -642,50 +929,7 @@ def run(ctx):
         out = run_cells(case)
         idx = add(term_cells(case, out), {"call": "Grid.cells_inside_polygon", "case": case, "impl": out},
                   ("cells", fam, min(nrows, 3), min(ncols, 3), None if out is None else min(len(out), 3)))
-        if out is None:
-            if len(poly) >= 1:
-                fail(idx, "C15/cells_inside_polygon/raised", "ValueError for a non-empty polygon")
-            continue
-        if not in_quantifier(poly) or case["atol"] != ATOL:
-            # the property is about the tolerance 1e-8; with another atol argument the
-            # answer may legitimately depend on whether the argument is forwarded
-            stats["polygons_outside_quantifier"] += 1
-            continue
-        # exact centres: xll + csz*(col+1/2), yll + csz*(nrows-1-row+1/2) as dyadic rationals
-        cells = list(range(nrows * ncols))
-        cen = [(Fr(xll) + Fr(csz) * (Fr(k % ncols) + Fr(1, 2)),
-                Fr(yll) + Fr(csz) * (Fr(nrows - 1 - k // ncols) + Fr(1, 2))) for k in cells]
-        den = 1
-        for a, b in cen + [(Fr(x), Fr(y)) for x, y in poly]:
-            den = max(den, a.denominator, b.denominator)
-        V = [(int(Fr(x) * den), int(Fr(y) * den)) for x, y in poly]
-        xs = [v[0] for v in V]
-        ys = [v[1] for v in V]
-        size2 = (max(xs) - min(xs)) ** 2 + (max(ys) - min(ys)) ** 2
-        got = {c: (x, y) for x, y, c in out}
-        if len(got) != len(out):
-            fail(idx, "C15/cells_inside_polygon/duplicate-cell", "a cell is listed twice")
-        scale = max(abs(xll), abs(yll), csz * max(nrows, ncols))
-        for k in cells:
-            p = (int(cen[k][0] * den), int(cen[k][1] * den))
-            if k in got:
-                gx, gy = got[k]
-                if abs(Fr(gx) - cen[k][0]) > 1e-12 * scale or abs(Fr(gy) - cen[k][1]) > 1e-12 * scale:
-                    fail(idx, "C15/cells_inside_polygon/wrong-coordinates",
-                         f"cell {k}: reported ({gx!r},{gy!r}), centre ({float(cen[k][0])!r},{float(cen[k][1])!r})")
-            if not is_far(V, p, size2):
-                stats["skipped_near_edge"] += 1
-                continue
-            want, _ = evenodd(V, p, rng)
-            stats["cells_judged"] += 1
-            if want == 1 and k not in got:
-                fail(idx, "C15/cells_inside_polygon/missing-cell",
-                     f"cell {k} (centre {float(cen[k][0])!r},{float(cen[k][1])!r}) is inside but not returned")
-            if want == 0 and k in got:
-                fail(idx, "C15/cells_inside_polygon/extra-cell",
-                     f"cell {k} (centre {float(cen[k][0])!r},{float(cen[k][1])!r}) is outside but returned")
-        if any(c < 0 or c >= nrows * ncols for c in got):
-            fail(idx, "C15/cells_inside_polygon/extra-cell", "a cell number outside the grid is returned")
+        judge_cells(idx, case, out)
 
     # ---- correspondence inside Coq
     bad, nshards, failed = cm.run_case_files(PID, HEADER, "pcase", "p_ok", terms, shard=150,
